@@ -20,6 +20,15 @@ var xgKeys = []string{"name", "highway", "building", "source", "addr:street", "r
 func xgStr(r *Rng) string { return xgStrings[r.Intn(len(xgStrings))] }
 
 func xgTime(r *Rng) time.Time {
+	if r.Chance(3) {
+		// times a nanosecond count in an int64 cannot hold (before 1678, after 2262), before the epoch, and the last
+		// second RFC 3339 can write
+		return []time.Time{
+			time.Date(9999, 12, 31, 23, 59, 59, 0, time.UTC), time.Date(2300, 1, 2, 3, 4, 5, 0, time.UTC),
+			time.Date(1969, 12, 31, 23, 59, 59, 0, time.UTC), time.Date(1600, 2, 29, 12, 0, 0, 0, time.UTC),
+			time.Date(1, 1, 1, 0, 0, 1, 0, time.UTC),
+		}[r.Intn(5)]
+	}
 	ns := int64(0)
 	switch r.Intn(4) {
 	case 0:
